@@ -58,6 +58,8 @@ SHAPES = [
     ("pseudonode.go", r"func \(t pseudonodeVotesTask\) execute\(.*?\n}\n", "the wait `case err, ok := <-t.persistStateDone:`",
      r"select \{\s*case err, ok := <-t\.persistStateDone:"),
     ("actions.go", r"func \(c checkpointAction\) do\(.*?\n}\n", "`close(c.done)`", r"close\(c\.done\)"),
+    ("actions.go", r"func \(c checkpointAction\) do\(.*?\n}\n", "the blocking send `if c.done != nil { c.done <- c.Err }` on the persist-error branch, before close",
+     r"if c\.done != nil \{\s*c\.done <- c\.Err\s*\}(.|\n)*close\(c\.done\)"),
     ("persistence.go", r"func \(p \*asyncPersistenceLoop\) loop\(.*?\n}\n", "`s.events <- checkpointEvent{` after persist",
      r"persist\(p\.log, p\.crashDb[^\n]*\n(.|\n)*?s\.events <- checkpointEvent\{"),
 ]
